@@ -12,7 +12,9 @@ for cfg in ctx.configs:
     j = json.load(open(ctx.paths[cfg]))
     for b in j["bodies"]:
         if b.get("def_kind") in ("Fn", "AssocFn"):
-            fns[b["path"]] = {"inputs": b.get("sig_inputs"), "output": b.get("sig_output"), "is_async": bool(b.get("is_async"))}
+            sig = {"inputs": b.get("sig_inputs"), "output": b.get("sig_output"), "is_async": bool(b.get("is_async"))}
+            if sig not in fns.setdefault(b["path"], []):
+                fns[b["path"]].append(sig)      # (a signature can differ between feature configurations: the mmap stub type)
 head = subprocess.run(["git", "-C", os.environ.get("VERIF_REPO", "/repo"), "rev-parse", "--short", "HEAD"], capture_output=True, text=True).stdout.strip()
 out = {"note": "functions of the pinned tree (all 12 feature configurations) with their signatures; helpers NOT listed here are inlined "
                "before analysis (analysis/inline.py), unless they are a listed function under a new name (same module, same "
